@@ -433,7 +433,7 @@ def larger_dies(chunk, replay=None):
         if replay:
             spec, net, ops = replay["die"], replay["netlist"], replay["ops"]
         else:
-            W, H = rng.choice([(10, 8), (12.5, 7.3), (30, 4), (3, 17), (0.9, 0.6), (100, 100), (0.002, 0.001), (0.004, 0.003), (2000.0, 1500.0)])
+            W, H = rng.choice([(10, 8), (12.5, 7.3), (30, 4), (3, 17), (0.9, 0.6), (100, 100), (0.002, 0.001), (0.004, 0.003), (2000.0, 1500.0), (5.5, 2), (1, 1), (50, 30)])
             step = min(W, H) / 10
             regions, taken = [], []
             for tag in rng.sample(["#", "DSP", "BRAM", "#", "LUT"], rng.randint(0, 4)):
@@ -458,7 +458,12 @@ def larger_dies(chunk, replay=None):
             if regions:
                 spec["regions"] = regions
             if not regions and net is None and rng.random() < 0.7:
-                ops = [("grid", rng.randint(1, 9), rng.randint(1, 9))] + [("split", rng.choice([1.42, 1.5, 2.0]), rng.randint(1, 60))]
+                g = (rng.randint(1, 9), rng.randint(1, 9))
+                if rng.random() < 0.5:      # many rows or columns: steps that are not representable (added after seed C11-11: vectorised centres)
+                    nc = rng.randint(10, 60)
+                    g = (rng.randint(1, max(1, 300 // nc)), nc)
+                    g = g if rng.random() < 0.5 else (g[1], g[0])
+                ops = [("grid",) + g] + [("split", rng.choice([1.42, 1.5, 2.0]), rng.randint(1, 60))]
             else:
                 ops = [("split", rng.choice([1.42, 1.5, 1.9, 2.0, 3.0, 4.0]), rng.choice([1, 1, 2, 5, 17, 40, 60])) for _ in range(rng.randint(1, 3))]
                 if rng.random() < 0.15:      # a large count (the count must be reached whatever the units of the die; added after seed C11-5)
@@ -497,3 +502,49 @@ def larger_dies(chunk, replay=None):
                      "tenth-of-the-die lattice) refined 1-3 times with limits from 1.42 to 4 and counts from 1 to 60, or gridded up to 9 x 9 and then refined; "
                      "after every operation: every region inside exactly one former region with its tag, former regions exactly covered, no overlap, count, "
                      f"aspect ratio, blockages and fixed regions unchanged; largest result: {maxn} regions", samples=samples, bound=f"{n_des} dies per chunk")
+
+
+GRID_SIDES = [5.5, 30, 1, 50, 12.5, 7.3, 0.9, 0.004, 2000.0, 3]
+
+
+@contract(P, kind="enum", functions=[D + "initial_grid", G + "Rectangle.rectangle_grid"],
+          scope="bounded: every grid of 1 x n and n x 1 cells, n = 1..64 (thorough: 1..200), on dies with 10 decimal side lengths",
+          params=[dict(side=i) for i in range(len(GRID_SIDES))])
+def grids_with_many_rows_or_columns(side, replay=None):
+    """added after seed C11-11 (grid centres computed with a float-step arange: one column too many for some counts): the grid has exactly
+    rows x cols cells, cell (i, j) is the lattice cell of the die, for EVERY count up to the bound, not a sample."""
+    import os
+    tier = os.environ.get("VERIF_TIER", "quick")
+    L = GRID_SIDES[side]
+    other = 2.0 if L != 2.0 else 3.0
+    failures, evals = [], 0
+    counts = [replay["n"]] if replay else range(1, 65 if tier != "thorough" else 201)
+    for n in counts:
+        for horizontal in ([replay["horizontal"]] if replay else (True, False)):
+            W, H = (L, other) if horizontal else (other, L)
+            nr, nc = (1, n) if horizontal else (n, 1)
+            Rectangle.undefine_epsilon()
+            evals += 1
+            try:
+                d = Die(f"width: {W!r}\nheight: {H!r}\n")
+                d.initial_grid(nr, nc)
+                cells = sorted(_boxes(d.floorplanning_rectangles()[0]))
+            except Exception as e:  # noqa
+                failures.append(dict(clause="grid.succeeds", n=n, horizontal=horizontal, die=[W, H], observed=f"{type(e).__name__}: {e}"))
+                continue
+            tol = 1e-9 * min(W, H) / n
+            want = sorted((j * W / nc, i * H / nr, (j + 1) * W / nc, (i + 1) * H / nr, "_") for i in range(nr) for j in range(nc))
+            bad = None
+            if len(cells) != n:
+                bad = f"{len(cells)} cells instead of {n}"
+            elif any(abs(a - b) > tol for c, w in zip(cells, want) for a, b in zip(c[:4], w[:4])) or any(c[4] != "_" for c in cells):
+                k = next(k for k, (c, w) in enumerate(zip(cells, want)) if any(abs(a - b) > tol for a, b in zip(c[:4], w[:4])) or c[4] != "_")
+                bad = f"cell {k} is {cells[k]}, the lattice cell is {want[k]}"
+            if bad:
+                failures.append(dict(clause="grid.cells_are_exactly_the_lattice_cells_of_the_die", n=n, horizontal=horizontal, die=[W, H], observed=bad))
+        if len(failures) >= 4:
+            break
+    Rectangle.undefine_epsilon()
+    return dict(evaluations=evals, distinct_nontrivial=evals, exhaustive=True, failures=failures[:4],
+                rule="Die(W x H).initial_grid(1, n) and (n, 1) for every n up to the bound: exactly n refinable cells, the k-th one being [k*L/n, (k+1)*L/n] across the whole "
+                     "other side, tag '_' (tolerance 1e-9 of a cell)", samples=[dict(side=L)], bound=f"n <= {max(counts)}")
